@@ -513,5 +513,10 @@ func (a SortedFrameEvents) Less(i, j int) bool {
 
 	wsi, _, _ := keys.DecodeSignature(a[i].Core.Signature)
 	wsj, _, _ := keys.DecodeSignature(a[j].Core.Signature)
+	if wsi == nil || wsj == nil {
+		// undecodable signatures (only possible in a frame received from a
+		// peer): fall back to a total order on the raw strings
+		return a[i].Core.Signature < a[j].Core.Signature
+	}
 	return wsi.Cmp(wsj) < 0
 }
